@@ -29,13 +29,6 @@ Proof.
   - induction args as [|a l IH]; [constructor|]. destruct H2 as [Ha Hl]. constructor; auto.
   - induction H2 as [|a l Ha Hl IH]; [exact I|]. split; auto.
 Qed.
-Lemma nnpl_func n args : no_neg_pow_left (EFunc n args) <-> Forall no_neg_pow_left args.
-Proof.
-  cbn [no_neg_pow_left]. split; intros H.
-  - induction args as [|a l IH]; [constructor|]. destruct H as [Ha Hl]. constructor; auto.
-  - induction H as [|a l Ha Hl IH]; [exact I|]. split; auto.
-Qed.
-
 (* ------------------------------------------------------------ the tables *)
 (* OperatorNode.op_map (generated) sends ^ to **, = to ==, <> to != *)
 Lemma op_map_ok :
@@ -79,119 +72,156 @@ Proof.
 Qed.
 
 Definition emit_good (e : expr) : Prop :=
-  (forall par, pywfb (emit par e) = true /\ pyabs (emit par e) = translate e /\ 1 <= pytop (emit par e))
-  /\ 8 <= pytop (emit true e)
-  /\ ((forall a, e <> EPre a) -> pytop (emit true e) = 11).
+  (forall c, pywfb (emit c e) = true /\ pyabs (emit c e) = translate e /\ 1 <= pytop (emit c e))
+  /\ 8 <= pytop (emit CtxOp e)
+  /\ pytop (emit CtxPow e) = 11.
 
-Lemma emit_ok e : arith e -> no_neg_pow_left e -> emit_good e.
+Lemma emit_ok e : arith e -> emit_good e.
 Proof.
-  induction e as [k v|e IH|e IH|o l r IHl IHr|n args IH] using expr_ind'; intros A N.
+  induction e as [k v|e IH|e IH|o l r IHl IHr|n args IH] using expr_ind'; intros A.
   - assert (O: pywfb (emit_operand k v) = true /\ pytop (emit_operand k v) = 11).
     { apply operand_ok. intros ->. exact A. }
     destruct O as [O1 O2]. unfold emit_good. cbn [emit translate]. rewrite O2.
-    split; [intros par; (split; [|split])|split]; auto; lia.
-  - cbn [arith no_neg_pow_left] in A, N. destruct (IH A N) as (G1 & G2 & G3).
-    destruct (G1 true) as (W & B & _).
-    assert (T: pywfb (PNeg (emit true e)) = true).
+    split; [intros c; (split; [|split])|split]; auto; lia.
+  - cbn [arith] in A. destruct (IH A) as (G1 & G2 & G3).
+    destruct (G1 CtxOp) as (W & B & _).
+    assert (T: pywfb (PNeg (emit CtxOp e)) = true).
     { cbn [pywfb]. rewrite W. apply Z.leb_le in G2. rewrite G2. reflexivity. }
-    unfold emit_good. cbn [emit translate].
-    split; [intros par; (split; [|split])|split]; cbn [pyabs pytop]; rewrite ?T, ?B; auto; try lia.
-    intros H. exfalso. apply (H e). reflexivity.
-  - cbn [arith no_neg_pow_left] in A, N. destruct (IH A N) as (G1 & G2 & G3).
-    destruct (G1 true) as (W & B & _).
-    assert (T: pywfb (PBin PDiv (emit true e) (PAtom (zs "100"%string))) = true).
+    assert (T2: pywfb (PParen (PNeg (emit CtxOp e))) = true).
+    { change (pywfb (PParen (PNeg (emit CtxOp e))))
+        with (pywfb (PNeg (emit CtxOp e)) && (1 <=? 8)). rewrite T. reflexivity. }
+    unfold emit_good. cbn [translate].
+    split; [intros [| |]; (split; [|split])|split]; cbn [emit pyabs pytop];
+      rewrite ?T, ?T2, ?B; auto; lia.
+  - cbn [arith] in A. destruct (IH A) as (G1 & G2 & G3).
+    destruct (G1 CtxOp) as (W & B & _).
+    assert (T: pywfb (PBin PDiv (emit CtxOp e) (PAtom (zs "100"%string))) = true).
     { cbn [pywfb is_cmp_op pylevel pytop]. rewrite W. cbn [andb].
       apply andb_true_intro; split; [apply Z.leb_le; lia|reflexivity]. }
     unfold emit_good. cbn [emit translate].
-    split; [intros par; (split; [|split])|split].
+    split; [intros c; (split; [|split])|split].
     + apply pywfb_wrap; auto. cbn; lia.
     + rewrite pyabs_wrap. cbn [pyabs]. rewrite B. reflexivity.
     + apply pytop_wrap. cbn; lia.
     + cbn; lia.
     + reflexivity.
-  - cbn [arith no_neg_pow_left] in A, N. destruct A as ([p Hp] & Al & Ar). destruct N as (Npl & Nl & Nr).
-    destruct (IHl Al Nl) as (L1 & L2 & L3). destruct (IHr Ar Nr) as (R1 & R2 & R3).
-    destruct (L1 true) as (Wl & Bl & _). destruct (R1 true) as (Wr & Br & _).
+  - cbn [arith] in A. destruct A as ([p Hp] & Al & Ar).
+    destruct (IHl Al) as (L1 & L2 & L3). destruct (IHr Ar) as (R1 & R2 & R3).
     pose proof (pyop_of_pow o p Hp) as Pow.
-    assert (E: forall par, emit par (EBin o l r) = wrap par (PBin p (emit true l) (emit true r))).
-    { intros par. destruct o; cbn [emit]; rewrite ?Hp; try reflexivity; vm_compute in Hp; discriminate. }
-    assert (T: pywfb (PBin p (emit true l) (emit true r)) = true).
+    set (cc := match o with OPow => CtxPow | _ => CtxOp end).
+    destruct (L1 cc) as (Wl & Bl & _). destruct (R1 cc) as (Wr & Br & _).
+    assert (E: forall c, emit c (EBin o l r) = wrap (is_par c) (PBin p (emit cc l) (emit cc r))).
+    { intros c. unfold cc. destruct o; cbn [emit]; rewrite ?Hp; try reflexivity;
+        vm_compute in Hp; discriminate. }
+    assert (T: pywfb (PBin p (emit cc l) (emit cc r)) = true).
     { cbn [pywfb]. rewrite Wl, Wr. cbn [andb].
       destruct p; cbn [is_cmp_op pylevel];
-        try (apply andb_true_intro; split; [apply Z.leb_le|apply Z.ltb_lt]; lia);
-        try (apply andb_true_intro; split; apply Z.ltb_lt; lia).
-      assert (o = OPow) by (apply Pow; reflexivity). subst o.
-      assert (Tl: pytop (emit true l) = 11).
-      { apply L3. intros a ->. exact Npl. }
-      rewrite Tl. apply andb_true_intro; split; [reflexivity|apply Z.leb_le; lia]. }
+        try (assert (NP: o <> OPow) by (intros Q; apply Pow in Q; discriminate);
+             assert (Ec: cc = CtxOp) by (unfold cc; destruct o; congruence);
+             rewrite Ec;
+             first [ apply andb_true_intro; split; [apply Z.leb_le|apply Z.ltb_lt]; lia
+                   | apply andb_true_intro; split; apply Z.ltb_lt; lia ]).
+      assert (o = OPow) by (apply Pow; reflexivity). subst o. unfold cc.
+      rewrite L3, R3. reflexivity. }
     unfold emit_good. cbn [translate]. rewrite Hp.
     assert (Lv: 1 <= pylevel p) by (destruct p; cbn; lia).
-    split; [intros par; (split; [|split])|split]; rewrite ?E.
+    split; [intros c; (split; [|split])|split]; rewrite ?E.
     + apply pywfb_wrap; auto.
     + rewrite pyabs_wrap. cbn [pyabs]. rewrite Bl, Br. reflexivity.
     + apply pytop_wrap. exact Lv.
     + cbn; lia.
     + reflexivity.
-  - apply arith_func in A. destruct A as [Hh Aa]. apply nnpl_func in N.
+  - apply arith_func in A. destruct A as [Hh Aa].
     assert (G: Forall emit_good args).
     { rewrite Forall_forall in *. intros a Ha. apply IH; auto. }
-    assert (Wargs: forallb (fun a => pywfb a && (1 <=? pytop a)) (map (emit false) args) = true).
+    assert (Wargs: forallb (fun a => pywfb a && (1 <=? pytop a)) (map (emit CtxTop) args) = true).
     { clear -G. induction G as [|a l Ga Gl IHl]; cbn [map forallb]; auto.
-      destruct Ga as (G1 & _). destruct (G1 false) as (W & _ & T). rewrite W, IHl.
+      destruct Ga as (G1 & _). destruct (G1 CtxTop) as (W & _ & T). rewrite W, IHl.
       apply Z.leb_le in T. rewrite T. reflexivity. }
-    assert (Bargs: map pyabs (map (emit false) args) = map translate args).
+    assert (Bargs: map pyabs (map (emit CtxTop) args) = map translate args).
     { clear -G. induction G as [|a l Ga Gl IHl]; cbn [map]; auto.
-      destruct Ga as (G1 & _). destruct (G1 false) as (_ & B & _). rewrite B, IHl. reflexivity. }
+      destruct Ga as (G1 & _). destruct (G1 CtxTop) as (_ & B & _). rewrite B, IHl. reflexivity. }
     unfold emit_good. cbn [emit translate].
     destruct Hh as [Hh|[Hh|[Hh|Hh]]].
     + destruct (handler_false _ Hh) as (H1 & H2 & H3 & H4 & H5 & H6 & H7).
       rewrite H1, H2, H3, H4, H5, H6, H7, Hh. cbn [orb pywfb pyabs pytop].
-      rewrite Wargs, Bargs. split; [intros par; (split; [|split])|split]; auto; lia.
-    + rewrite Hh. split; [intros par; (split; [|split])|split]; cbn; auto; lia.
-    + rewrite Hh. split; [intros par; (split; [|split])|split]; cbn; auto; lia.
-    + rewrite Hh. split; [intros par; (split; [|split])|split]; cbn; auto; lia.
+      rewrite Wargs, Bargs. split; [intros c; (split; [|split])|split]; auto; lia.
+    + rewrite Hh. split; [intros c; (split; [|split])|split]; cbn; auto; lia.
+    + rewrite Hh. split; [intros c; (split; [|split])|split]; cbn; auto; lia.
+    + rewrite Hh. split; [intros c; (split; [|split])|split]; cbn; auto; lia.
 Qed.
 
-Theorem emit_partial e : arith e -> no_neg_pow_left e ->
-  forall par, PyWF (emit par e) /\ pyabs (emit par e) = translate e.
+Theorem emit_correct e : arith e ->
+  forall c, PyWF (emit c e) /\ pyabs (emit c e) = translate e.
 Proof.
-  intros A N par. destruct (emit_ok e A N) as (G & _). destruct (G par) as (W & B & _).
+  intros A c. destruct (emit_ok e A) as (G & _). destruct (G c) as (W & B & _).
   split; assumption.
 Qed.
 
 (* ------------------------------------------------------------ text literals *)
+(* the Python escape of one character *)
 Fixpoint esc (s : list Z) : list Z :=
-  match s with [] => [] | c :: s' => if c =? dq then bs :: dq :: esc s' else c :: esc s' end.
+  match s with
+  | [] => []
+  | c :: s' =>
+      if c =? dq then bs :: dq :: esc s'
+      else if c =? bs then bs :: bs :: esc s'
+      else if c =? 10 then bs :: 110 :: esc s'
+      else if c =? 13 then bs :: 114 :: esc s'
+      else c :: esc s'
+  end.
 
-Lemma repl_dbl s : repl_qq (dbl s) = esc s.
+Lemma emit_chain s : esc_nl (repl_qq (esc_bs (dbl s))) = esc s.
 Proof.
   induction s as [|c s IH]; [reflexivity|]. cbn [dbl esc].
-  destruct (Z.eqb_spec c dq) as [->|NE].
-  - cbn [repl_qq]. rewrite !Z.eqb_refl. rewrite IH. reflexivity.
-  - cbn [repl_qq]. destruct (Z.eqb_spec c dq); [contradiction|]. rewrite IH. reflexivity.
+  destruct (Z.eqb_spec c dq) as [->|N1].
+  { cbn [esc_bs]. change (dq =? bs) with false. cbv iota. cbn [esc_bs].
+    change (dq =? bs) with false. cbv iota. cbn [repl_qq]. change (dq =? dq) with true. cbv iota.
+    cbn [esc_nl]. change (bs =? 10) with false. change (bs =? 13) with false. cbv iota.
+    cbn [esc_nl]. change (dq =? 10) with false. change (dq =? 13) with false. cbv iota.
+    rewrite IH. reflexivity. }
+  destruct (Z.eqb_spec c bs) as [->|N2].
+  { cbn [esc_bs]. change (bs =? bs) with true. cbv iota. cbn [repl_qq].
+    change (bs =? dq) with false. cbv iota. cbn [repl_qq]. change (bs =? dq) with false. cbv iota.
+    cbn [esc_nl]. change (bs =? 10) with false. change (bs =? 13) with false. cbv iota.
+    cbn [esc_nl]. change (bs =? 10) with false. change (bs =? 13) with false. cbv iota.
+    rewrite IH. reflexivity. }
+  cbn [esc_bs]. destruct (Z.eqb_spec c bs); [contradiction|]. cbn [repl_qq].
+  destruct (Z.eqb_spec c dq); [contradiction|]. cbn [esc_nl].
+  destruct (Z.eqb_spec c 10) as [->|N3]; [rewrite IH; reflexivity|].
+  destruct (Z.eqb_spec c 13) as [->|N4]; rewrite IH; reflexivity.
 Qed.
 
-Definition plain_char (c : Z) : Prop := c <> bs /\ c <> 10 /\ c <> 13.
-
-Lemma unescape_esc s : Forall plain_char s -> py_unescape (esc s ++ [dq]) = Some s.
+Lemma unescape_esc s : py_unescape (esc s ++ [dq]) = Some s.
 Proof.
-  induction 1 as [|c s (H1 & H2 & H3) Hs IH]; [reflexivity|]. cbn [esc].
-  destruct (Z.eqb_spec c dq) as [->|NE].
-  - cbn [app py_unescape]. change (bs =? dq) with false. change ((bs =? 10) || (bs =? 13)) with false.
-    change (bs =? bs) with true. change (dq =? dq) with true. cbv iota. rewrite IH. reflexivity.
-  - cbn [app py_unescape].
-    destruct (Z.eqb_spec c dq); [contradiction|].
-    destruct (Z.eqb_spec c 10); [contradiction|]. destruct (Z.eqb_spec c 13); [contradiction|].
-    destruct (Z.eqb_spec c bs); [contradiction|]. cbn [orb]. rewrite IH. reflexivity.
+  induction s as [|c s IH]; [reflexivity|]. cbn [esc].
+  destruct (Z.eqb_spec c dq) as [->|N1].
+  { cbn [app py_unescape]. change (bs =? dq) with false. change ((bs =? 10) || (bs =? 13)) with false.
+    change (bs =? bs) with true. change (dq =? dq) with true. cbv iota. rewrite IH. reflexivity. }
+  destruct (Z.eqb_spec c bs) as [->|N2].
+  { cbn [app py_unescape]. change (bs =? dq) with false. change ((bs =? 10) || (bs =? 13)) with false.
+    change (bs =? bs) with true. cbv iota. rewrite IH. reflexivity. }
+  destruct (Z.eqb_spec c 10) as [->|N3].
+  { cbn [app py_unescape]. change (bs =? dq) with false. change ((bs =? 10) || (bs =? 13)) with false.
+    change (bs =? bs) with true. change (110 =? dq) with false. change (110 =? bs) with false.
+    change (110 =? 39) with false. change (110 =? 110) with true. cbv iota. rewrite IH. reflexivity. }
+  destruct (Z.eqb_spec c 13) as [->|N4].
+  { cbn [app py_unescape]. change (bs =? dq) with false. change ((bs =? 10) || (bs =? 13)) with false.
+    change (bs =? bs) with true. change (114 =? dq) with false. change (114 =? bs) with false.
+    change (114 =? 39) with false. change (114 =? 110) with false. change (114 =? 116) with false.
+    change (114 =? 114) with true. cbv iota. rewrite IH. reflexivity. }
+  cbn [app py_unescape].
+  destruct (Z.eqb_spec c dq); [contradiction|].
+  destruct (Z.eqb_spec c 10); [contradiction|]. destruct (Z.eqb_spec c 13); [contradiction|].
+  destruct (Z.eqb_spec c bs); [contradiction|]. cbn [orb]. rewrite IH. reflexivity.
 Qed.
 
 Lemma dbl_nonempty c s : exists d t, dbl (c :: s) = d :: t.
 Proof. cbn [dbl]. destruct (c =? dq); eauto. Qed.
 
-Theorem text_partial s : Forall plain_char s ->
-  py_string_literal (emit_text (excel_quote s)) = Some s.
+Theorem text_correct s : py_string_literal (emit_text (excel_quote s)) = Some s.
 Proof.
-  intros H. destruct s as [|c s]; [reflexivity|].
+  destruct s as [|c s]; [reflexivity|].
   destruct (dbl_nonempty c s) as (d & t & E).
   assert (L: (2 <? zlen (excel_quote (c :: s))) = true).
   { unfold excel_quote, zlen. rewrite E. cbn [length]. rewrite app_length. cbn [length].
@@ -200,8 +230,8 @@ Proof.
   assert (S: strip_quotes (excel_quote (c :: s)) = dbl (c :: s)).
   { unfold excel_quote, strip_quotes. rewrite rev_app_distr. cbn [rev app].
     change (dq =? dq) with true. cbn [andb]. apply rev_involutive. }
-  rewrite S, repl_dbl. cbn [py_string_literal]. change (dq =? dq) with true. cbv iota.
-  apply unescape_esc, H.
+  rewrite S, emit_chain. cbn [py_string_literal]. change (dq =? dq) with true. cbv iota.
+  apply unescape_esc.
 Qed.
 
 (* ------------------------------------------------------------ number literals *)
